@@ -439,23 +439,24 @@ def r13_6c(ctx):
         bad = None
         total = 0
         unmodelled = 0
-        for q in range(256):
-            for bs in range(256):
+        W = 10 if ctx.tier == "thorough" and ctx.default_config == "native" else 8
+        for q in range(1 << W):
+            for bs in range(1 << W):
                 for prev in (0, 1):
                     env = {bs_l: bs, q_l: q, carry: prev}
                     # the quote mask may be copied into a named variable first
-                    stop, _ = run(f, start, env, {call_b} | uses)
+                    stop, _ = run(f, start, env, {call_b} | uses, width=W)
                     total += 1
                     if stop is None:
                         unmodelled += 1
                         continue
-                    low = (q & -q) - 1 if q else 255
+                    low = (q & -q) - 1 if q else (1 << W) - 1
                     must = prev != 0 or (bs & low) != 0
                     if must and stop != call_b and bad is None:
                         bad = (q, bs, prev)
         ctx.ob("R13.6", f"{short(f.id)}:escape-step-guard", bad is None and unmodelled == 0, f.loc(gc[0][1]["ln"]),
                f"{total} (quote mask, backslash mask, carry) combinations: the escape step is reached whenever a backslash lies below the first quote or the carry is set" if bad is None and unmodelled == 0 else
-               (f"quote mask {bad[0]:#010b}, backslash mask {bad[1]:#010b}, carry {bad[2]}: the escape step is skipped although a backslash precedes the first quote (or the block has no quote): escape status and carry are lost" if bad else f"{unmodelled} combinations could not be evaluated (fail closed)"))
+               (f"quote mask {bad[0]:#b}, backslash mask {bad[1]:#b}, carry {bad[2]}: the escape step is skipped although a backslash precedes the first quote (or the block has no quote): escape status and carry are lost" if bad else f"{unmodelled} combinations could not be evaluated (fail closed)"))
     ctx.floor("R13.6", "scanners with a guarded escape step", n, 1)
 
 
